@@ -3,7 +3,7 @@
 Spec -> code: every edge of the TLC state graph (label = action with arguments) is replayed onto a real policy
 object with real Host objects, reached through a shortest clean prefix; after the edge's call two query plans
 and distance() of every known host are taken and checked against the constraints exported in the spec
-post-state (`exp`).  Populate edges are replayed with every order of the populated hosts.
+post-state (`exp`).  Populate edges are replayed with every order of the known hosts.
 Code -> spec: random walks record, per call, what the real object answered; TLC validates the recorded
 histories against spec/Trace_LBP.tla (same PlanOK / DistOK predicates, in TLA+).  The Python check below and
 the TLA+ predicates are two implementations of the same constraints; checks/c21.py requires them to agree on
@@ -127,17 +127,14 @@ class LBPHarness(object):
         """Make the call(s) the cluster makes for this event.  Returns None or the exception text."""
         try:
             e = ev["e"]
-            if e == "Populate":
-                up = set(ev["u"])
-                lst = []
-                for h in ev["S"]:
-                    host = self._new_host(h, ev["f"][h - 1])
-                    if h in up:
-                        host.set_up()
-                    else:
-                        host.set_down()
-                    lst.append(host)
-                self.policy.populate(self.cluster, lst)
+            if e == "Learn":
+                host = self._new_host(ev["h"], ev["d"])
+                if ev["up"]:
+                    host.set_up()
+                else:
+                    host.set_down()
+            elif e == "Populate":
+                self.policy.populate(self.cluster, [self.hosts[h] for h in ev["order"]])
             elif e == "Up":
                 host = self.hosts[ev["h"]]
                 host.set_up()
@@ -258,46 +255,77 @@ def check_obs(st, obs):
     return res
 
 
-RENAME = {
-    ("DCAware", "Populate", "host-missing"): "DCAware.populate:ungrouped-hosts",
-}
+def _first_failure_at(pol, n, events, post, step_obs_check):
+    hz, err = run_events(pol, n, events)
+    if err:
+        return True
+    return bool(step_obs_check(hz.observe()))
 
 
-def signature(pol, ev, failures):
+def signature(pol, n, events, post, failures):
+    """Stable name of the defect class.  DCAware failures are attributed by counterfactual replays:
+      * the same history with the populate() hosts grouped by datacenter does not fail
+            -> DCAware.populate:ungrouped-hosts
+      * the same history on a policy configured with the contact points' datacenter instead of
+        auto-detection does not fail -> DCAware.auto-local-dc:unlocated-hosts-orphaned
+    everything else: <policy>.<last call>:<kind of failure>."""
     t = failures[0][0]
-    key = (pol["kind"], ev["e"], t)
-    if key in RENAME:
-        return RENAME[key]
-    extra = ""
+    ev = events[-1]
     if pol["kind"] == "DCAware":
-        extra = "[auto]" if pol["local"] == NODC else ""
+        def failing(obs):
+            return check_obs(post, obs)
+        pi = next((i for i, e in enumerate(events) if e["e"] == "Populate"), None)
+        if pi is not None:
+            dcs = {e["h"]: e["d"] for e in events[:pi] if e["e"] == "Learn"}
+            grouped = sorted(events[pi]["order"], key=lambda h: (dcs.get(h) or pol["local"], h))
+            if grouped != events[pi]["order"]:
+                alt = events[:pi] + [dict(events[pi], order=grouped)] + events[pi + 1:]
+                if not _first_failure_at(pol, n, alt, post, failing):
+                    return "DCAware.populate:ungrouped-hosts"
+        if pol["local"] == NODC:
+            alt_pol = dict(pol, local="A")
+            # with an explicit local dc the specification expects the same thing once detection has happened
+            if post["exp"]["strict"] and not _first_failure_at(alt_pol, n, events, post, failing):
+                return "DCAware.auto-local-dc:unlocated-hosts-orphaned"
+    extra = "[auto]" if (pol["kind"] == "DCAware" and pol["local"] == NODC) else ""
     return "%s%s.%s:%s" % (pol["kind"], extra, ev["e"], t)
 
 
 # ------------------------------------------------------------------------------------------- edges -> events
 
-_LABEL = re.compile(r'^(\w+)\((\d+)(?:,\s*"(\w*)")?\)$')
+_LABEL = re.compile(r'^(\w+)(?:\((.*)\))?$')
+
+
+def _arg(a):
+    a = a.strip()
+    if a.startswith('"'):
+        return a[1:-1]
+    if a in ("TRUE", "FALSE"):
+        return a == "TRUE"
+    return int(a)
 
 
 def events_of_edge(label, pre, post, all_orders=True, rng=None):
-    """Calls to replay for one graph edge.  Populate: one event per order of the populated hosts."""
-    if label.startswith("Populate"):
+    """Calls to replay for one graph edge.  Populate: one event per order of the known hosts."""
+    m = _LABEL.match(label.strip())
+    if not m:
+        raise ValueError("cannot read edge label %r" % label)
+    name = m.group(1)
+    args = [_arg(a) for a in m.group(2).split(",")] if m.group(2) else []
+    if name == "Populate":
         S = sorted(int(h) for h in post["known"])
-        f = [str(x) for x in post["dc"]]
-        u = sorted(int(h) for h in post["isup"]) if str(post["pol"]["kind"]) == "Default" else S
         if all_orders:
             orders = itertools.permutations(S)
         else:
             o = list(S)
             rng.shuffle(o)
             orders = [o]
-        return [{"e": "Populate", "S": list(o), "f": f, "u": u} for o in orders]
-    m = _LABEL.match(label.strip())
-    if not m:
-        raise ValueError("cannot read edge label %r" % label)
-    ev = {"e": m.group(1), "h": int(m.group(2))}
-    if m.group(3) is not None:
-        ev["d"] = m.group(3)
+        return [{"e": "Populate", "order": list(o)} for o in orders]
+    if name == "Learn":
+        return [{"e": "Learn", "h": args[0], "d": args[1], "up": args[2]}]
+    ev = {"e": name, "h": args[0]}
+    if len(args) > 1:
+        ev["d"] = args[1]
     return [ev]
 
 
@@ -331,8 +359,11 @@ def replay_graph(nodes, edges, init, n, on_failure, sample=None, nontrivial=None
             for ev in events_of_edge(lab, pre, post):
                 events = recipe[s] + [ev]
                 hz, err = run_events(pol, n, events)
-                obs = hz.observe() if err is None else {"plan1": [], "plan2": [], "dist": ["-"] * n, "error": err}
-                fails = check_obs(post, obs)
+                if err is None and not post["populated"]:
+                    obs, fails = None, []                      # nothing to observe on an unpopulated policy
+                else:
+                    obs = hz.observe() if err is None else {"plan1": [], "plan2": [], "dist": ["-"] * n, "error": err}
+                    fails = check_obs(post, obs)
                 stats["calls_replayed"] += 1
                 if ev["e"] == "Populate":
                     stats["populate_orders"] += 1
@@ -343,7 +374,7 @@ def replay_graph(nodes, edges, init, n, on_failure, sample=None, nontrivial=None
                 stats["clean"] += 1
                 if nontrivial is not None and ev["e"] in ("Relocate", "Remove", "Down", "Add"):
                     nontrivial((pol_name(pol), repr(events)))
-                if sample is not None and stats["clean"] % 4001 == 17:
+                if sample is not None and obs is not None and stats["clean"] % 4001 == 17:
                     sample({"policy": pol_name(pol), "calls": events, "plan": obs["plan1"], "distance": obs["dist"]})
                 if d not in recipe:
                     recipe[d] = events
@@ -366,13 +397,16 @@ def record_walk(nodes, path_edges, n, rng):
         ev = events_of_edge(lab, nodes[s], nodes[d], all_orders=False, rng=rng)[0]
         events.append(ev)
         err = hz.apply(ev)
-        obs = hz.observe() if err is None else {"plan1": [], "plan2": [], "dist": ["-"] * n, "error": err}
+        if err is None and not nodes[d]["populated"]:
+            obs = {"plan1": [], "plan2": [], "dist": ["-"] * n, "error": None}
+        else:
+            obs = hz.observe() if err is None else {"plan1": [], "plan2": [], "dist": ["-"] * n, "error": err}
         rec = dict(ev)
         rec.update({"plan1": obs["plan1"], "plan2": obs["plan2"], "dist": obs["dist"]})
         if not trace:
             rec["pol"] = pol
         trace.append(rec)
-        fails = check_obs(nodes[d], obs)
+        fails = check_obs(nodes[d], obs) if (nodes[d]["populated"] or obs["error"]) else []
         if fails:
             return pol, trace, {"events": events, "post": nodes[d], "obs": obs, "failures": fails}
     return pol, trace, None
@@ -420,4 +454,107 @@ def parse_sim_with_actions(path):
         body = re.split(r'^={4,}\s*$', body, flags=re.M)[0].strip()
         if body:
             out.append((label, tlaval.parse_state(body)))
+    return out
+
+
+# =========================================================================================== C22: TokenAwarePolicy
+
+def make_fixed_child(dist_by_host, plan_hosts):
+    """A wrapped policy with a fixed plan and a fixed distance table (harness-side child policy)."""
+    P = repo_import("cassandra.policies")
+
+    class FixedChild(P.LoadBalancingPolicy):
+        def __init__(self):
+            P.LoadBalancingPolicy.__init__(self)
+            self.calls = 0
+
+        def populate(self, cluster, hosts):
+            pass
+
+        def distance(self, host):
+            return dist_by_host.get(host, P.HostDistance.IGNORED)
+
+        def make_query_plan(self, working_keyspace=None, query=None):
+            self.calls += 1
+            return iter(list(plan_hosts))
+
+        def on_up(self, host):
+            pass
+        on_down = on_add = on_remove = on_up
+
+    return FixedChild()
+
+
+def seed_shuffle(rng):
+    P = repo_import("cassandra.policies")
+    P.shuffle = lambda lst: rng.shuffle(lst)
+
+
+class TokenAwareBinding(object):
+    """Real TokenAwarePolicy over a real Metadata built from one Placement.tla instance."""
+
+    def __init__(self, inst, n):
+        from harness.replay import placement as PL
+        self.PL = PL
+        self.P = repo_import("cassandra.policies")
+        self.Q = repo_import("cassandra.query")
+        self.inst = inst
+        m = len(inst["dc"])
+        self.n = max(n, m)
+        dc = list(inst["dc"]) + [1] * (self.n - m)
+        rack = list(inst["rack"]) + [1] * (self.n - m)
+        self.hosts = PL.make_hosts(dc, rack)                       # instance host number -> Host (extras: no tokens)
+        ring_hosts = {h: self.hosts[h] for h in range(1, m + 1)}
+        self.md, names = PL.build_metadata(inst["ring"], ring_hosts, [inst["strat"]])
+        for h in range(m + 1, self.n + 1):
+            self.md.add_or_return_host(self.hosts[h])
+        self.ks = names[0]
+        self.inv = {v.endpoint: k for k, v in self.hosts.items()}
+
+    def replicas(self, key):
+        return [self.inv.get(r.endpoint, 0) for r in self.md.get_replicas(self.ks, self.PL.key_bytes(key))]
+
+    def plan(self, key, child, up, dist, shuffle):
+        """child: list of instance host numbers; up/dist: dict instance host -> "T"/"F"/"N" / distance name.
+        Returns (list of instance host numbers, error text or None)."""
+        HD = self.P.HostDistance
+        names = {"LOCAL": HD.LOCAL, "REMOTE": HD.REMOTE, "IGNORED": HD.IGNORED}
+        try:
+            for h, host in self.hosts.items():
+                host.is_up = {"T": True, "F": False, "N": None}[up.get(h, "T")]
+            fixed = make_fixed_child({self.hosts[h]: names[d] for h, d in dist.items()}, [self.hosts[h] for h in child])
+            pol = self.P.TokenAwarePolicy(fixed, shuffle_replicas=shuffle)
+            pol.populate(_Cluster(self.md, []), list(self.hosts.values()))
+            stmt = self.Q.SimpleStatement("SELECT v FROM t WHERE k = 0", routing_key=self.PL.key_bytes(key), keyspace=self.ks)
+            out = [self.inv.get(getattr(h, "endpoint", None), 0) for h in pol.make_query_plan(None, stmt)]
+            return out, None
+        except Exception as ex:
+            return [], "%s: %s" % (type(ex).__name__, ex)
+
+
+def tokenaware_failures(real, head, tail, child, reps, up, dist, shuffle):
+    """Compare the real plan with the specified one (all in the same host numbering)."""
+    out = []
+    if len(set(real)) != len(real):
+        out.append(("host-repeated", "plan %s repeats a host" % (real,)))
+    lost = [h for h in child if h not in real]
+    if lost:
+        dl = [h for h in lost if h in reps and dist.get(h) == "LOCAL" and up.get(h) != "T"]
+        if dl and len(dl) == len(lost):
+            out.append(("down-local-replica-dropped",
+                        "child plan %s lists %s (LOCAL replica, is_up %s) but the token-aware plan %s leaves it out"
+                        % (child, dl, [up.get(h) for h in dl], real)))
+        else:
+            out.append(("child-host-lost", "hosts %s of the child plan %s are missing from %s" % (lost, child, real)))
+    extra = [h for h in real if h not in child and h not in head]
+    if extra:
+        out.append(("unexpected-host", "plan %s contains %s: neither a live local replica nor in the child plan" % (real, extra)))
+    if out:
+        return out
+    k = len(head)
+    got_head, got_tail = real[:k], real[k:]
+    if sorted(got_head) != sorted(head) or (not shuffle and got_head != head):
+        out.append(("head", "plan %s must start with the live local replicas %s%s" % (real, head, " in any order" if shuffle else "")))
+    elif got_tail != tail:
+        out.append(("tail-order", "after the replicas the plan %s must continue with %s (child order)" % (real, tail)))
     return out
